@@ -84,6 +84,8 @@ pub trait ToPrimitive {
     fn to_usize(&self) -> (r: Option<usize>) ensures r == self.to_usize_spec();
     spec fn to_u64_spec(&self) -> Option<u64>;
     fn to_u64(&self) -> (r: Option<u64>) ensures r == self.to_u64_spec();
+    spec fn to_i64_spec(&self) -> Option<i64>;
+    fn to_i64(&self) -> (r: Option<i64>) ensures r == self.to_i64_spec();
 }
 impl ToPrimitive for u64 {
     open spec fn to_usize_spec(&self) -> Option<usize> { Some(*self as usize) }
@@ -92,6 +94,9 @@ impl ToPrimitive for u64 {
     open spec fn to_u64_spec(&self) -> Option<u64> { Some(*self) }
     #[verifier::external_body]
     fn to_u64(&self) -> (r: Option<u64>) { unimplemented!() }
+    open spec fn to_i64_spec(&self) -> Option<i64> { if *self <= i64::MAX as u64 { Some(*self as i64) } else { None } }
+    #[verifier::external_body]
+    fn to_i64(&self) -> (r: Option<i64>) { unimplemented!() }
 }
 impl ToPrimitive for BigUint {
     open spec fn to_usize_spec(&self) -> Option<usize> { if bv(*self) <= usize::MAX { Some(bv(*self) as usize) } else { None } }
@@ -100,6 +105,9 @@ impl ToPrimitive for BigUint {
     open spec fn to_u64_spec(&self) -> Option<u64> { if bv(*self) <= u64::MAX { Some(bv(*self) as u64) } else { None } }
     #[verifier::external_body]
     fn to_u64(&self) -> (r: Option<u64>) { unimplemented!() }
+    open spec fn to_i64_spec(&self) -> Option<i64> { if bv(*self) <= i64::MAX { Some(bv(*self) as i64) } else { None } }
+    #[verifier::external_body]
+    fn to_i64(&self) -> (r: Option<i64>) { unimplemented!() }
 }
 
 impl BigUint {
@@ -111,6 +119,15 @@ impl BigUint {
     pub fn bit(&self, i: u64) -> (r: bool) ensures r == bit(bv(*self), i as nat) { unimplemented!() }
     #[verifier::external_body]
     pub fn from_slice(s: &[u32]) -> (r: BigUint) ensures bv(r) == digits32(s@, s@.len() as int) { unimplemented!() }
+    /// num_traits::Zero::is_zero
+    #[verifier::external_body]
+    pub fn is_zero(&self) -> (r: bool) ensures r == (bv(*self) == 0) { unimplemented!() }
+    /// self^exp mod modulus (num-bigint panics on a zero modulus: precondition, proved at the use)
+    #[verifier::external_body]
+    pub fn modpow(&self, exp: &BigUint, modulus: &BigUint) -> (r: BigUint)
+        requires bv(*modulus) != 0
+        ensures bv(r) as int == pow(bv(*self) as int, bv(*exp)) % (bv(*modulus) as int)
+    { unimplemented!() }
     #[verifier::external_body]
     pub fn count_ones(&self) -> (r: u64) ensures r as nat == popn(bv(*self)) { unimplemented!() }
 }
@@ -122,6 +139,24 @@ impl From<u64> for BigUint {
     #[verifier::external_body]
     fn from(v: u64) -> (r: BigUint) ensures bv(r) == v as nat { unimplemented!() }
 }
+impl FromSpecImpl<u32> for BigUint {
+    open spec fn obeys_from_spec() -> bool { false }
+    open spec fn from_spec(v: u32) -> BigUint { arbitrary() }
+}
+impl From<u32> for BigUint {
+    #[verifier::external_body]
+    fn from(v: u32) -> (r: BigUint) ensures bv(r) == v as nat { unimplemented!() }
+}
+impl FromSpecImpl<usize> for BigUint {
+    open spec fn obeys_from_spec() -> bool { false }
+    open spec fn from_spec(v: usize) -> BigUint { arbitrary() }
+}
+impl From<usize> for BigUint {
+    #[verifier::external_body]
+    fn from(v: usize) -> (r: BigUint) ensures bv(r) == v as nat { unimplemented!() }
+}
+pub assume_specification [i64::unsigned_abs] (x: i64) -> (r: u64)
+    ensures r as int == (if x < 0 { -(x as int) } else { x as int });
 /// num_traits::zero() / one() at type BigUint
 #[verifier::external_body]
 pub fn zero() -> (r: BigUint) ensures bv(r) == 0 { unimplemented!() }
